@@ -96,6 +96,11 @@ def run(ctx):
         args = chunkings(r, pkts, bufsize, mode)
         coalesce = r.random() < 0.3
         sc = ["bufsize %d" % bufsize, "init 636c 0 8 8"]
+        if r.random() < 0.3:
+            # an earlier connection is given up inside a packet: nothing of it may leak into the stream of the next one
+            junk = mq.publish(r.choice([0, 1]), b"old/topic", bytes(r.randrange(256) for _ in range(r.choice([3, 20, 40]))), 77)
+            cutj = r.randrange(3, len(junk))
+            sc += ["dial ok " + H(mq.connack()), "feed %s %s" % (H(junk[:cutj]), r.choice(["eof", "err"])), "rs"]
         if coalesce and args and args[0] != "tmo":
             sc.append("dial ok " + H(mq.connack()) + args[0])     # CONNACK coalesced with what follows
             rest = args[1:]
@@ -113,6 +118,16 @@ def run(ctx):
         scripts.append(sc)
         metas.append((expect, bufsize, use_readall))
         stats["timeouts"] += rest.count("tmo")
+    for rl in ([127, 128, 16383, 16384] + ([2097151, 2097152] if True else [])):
+        topic = b"len/%d" % rl
+        for qos in ((0, 1) if rl < 100000 else (0,)):
+            plen = rl - 2 - len(topic) - (2 if qos else 0)
+            payload = bytes((7 * j + rl) & 0xff for j in range(plen))
+            pk = mq.publish(qos, topic, payload, 0x1234 if qos else 0)
+            tailpk = mq.publish(0, b"after", b"x")
+            sc = ["bufsize 64", "init 636c 0 8 8", "dial ok " + H(mq.connack()), "feed %s %s eof" % (H(pk), H(tailpk)), "rs", "readall", "rs", "rs"]
+            scripts.append(sc)
+            metas.append(([(topic, payload, qos), (b"after", b"x", 0)], 64, True))
     res = sess.run_session(ctx, scripts)
     distinct, samples = set(), []
     keep = lambda l: l.startswith(("rs ", "readall", "ev w "))
@@ -123,7 +138,10 @@ def run(ctx):
         if meta is not None:
             expect, bufsize, use_readall = meta
             got = []
-            for op, lines in tr:
+            main = max(j for j, o in enumerate(sc) if o.startswith("dial ok"))
+            for j, (op, lines) in enumerate(tr):
+                if j < main:
+                    continue        # the connection that was given up: nothing of it is expected
                 for l in lines:
                     if l.startswith("rs msg "):
                         p = l.split()
